@@ -7,8 +7,8 @@ from concurrent.futures import ThreadPoolExecutor
 import vlib
 import p_make
 
-C14_FIELDS = {"at", "atmax", "hat", "iter", "riter", "post"}       # refusal beyond size(), iteration inside the bounds
-C15_FIELDS = {"size", "empty", "steps", "hsize", "hat", "iter", "riter", "post"}
+C14_FIELDS = {"at", "atmax", "huge", "hat", "iter", "riter", "post", "rpost"}       # refusal beyond size(), iteration inside the bounds
+C15_FIELDS = {"size", "empty", "steps", "hsize", "hat", "iter", "riter", "post", "rpost", "eqd", "eqo", "bend"}
 
 
 def mine(pid, field):
@@ -30,7 +30,7 @@ def run(pid, tier, seed):
         tps.append(tp)
 
     def gen():
-        return vlib.generate_and_replay("IprSeqMC", pid, {"MaxLen": 6 if q else 8}, exe, ("replay",), ["Sane"], (), 2, 1200)
+        return vlib.generate_and_replay("IprSeqMC", pid, {"MaxLen": 36 if q else 70}, exe, ("replay",), ["Sane"], (), 2, 1200)
 
     with ThreadPoolExecutor(max_workers=4) as ex:
         gf = ex.submit(gen)
@@ -106,12 +106,12 @@ def run(pid, tier, seed):
         "traces_validated_against_impl": s["behaviours"] - s["failed"] + sum(tr["executions"] for tr in trs) - nrej,
         "evaluations": s["steps"] + lines, "distinct_nontrivial": s["classes"],
         "rule": "binding A: the expected observation (size, empty, positional access at 0..size+2 and SIZE_MAX, iteration, "
-                "begin-to-end distance, helper size/operator[]) after each of up to %d appends, replayed on every one of the 25 "
+                "begin-to-end distance, helper size/operator[]) after each of up to %d appends (so that every block, chunk or index structure of an implementation is crossed), replayed on every one of the 25 "
                 "sequence implementations/routes (fixed-size ones at their size). A class is implementation x length. binding B: "
-                "the same for sizes 0,1,3,5 plus derived operations (try_block, Udt scope/members, Block body, Template "
+                "the same for sizes 0,1,3,5,17,40 (positions 2^k + j far beyond the bounds included) plus derived operations (try_block, Udt scope/members, Block body, Template "
                 "parameters/result, default_value, Type::linkage, Scope::size), the six equality operators on all pairs of "
-                "six values, and Optional::get on empty/valid values; once plain, once under ASan/UBSan." % (4 if q else 8),
-        "samples": samples, "exhaustive": True, "exhaustive_scope": "all implementations x lengths 0..%d" % (4 if q else 8),
+                "six values, and Optional::get on empty/valid values; once plain, once under ASan/UBSan." % (36 if q else 70),
+        "samples": samples, "exhaustive": True, "exhaustive_scope": "all implementations x lengths 0..%d" % (36 if q else 70),
         "failures_attributed_to_other_properties": foreign, "recorded_events": lines,
     }
     assumptions = ["Sequence::get is protected: positional access goes through position(i) / operator[] of the owning node"]
